@@ -60,8 +60,12 @@ func c09Gen(rng *verifsim.RNG, idx int, tier string) *Plan {
 	p.Class = "runs"
 	t := int64(rng.Dur(100*time.Millisecond, 3*time.Second))
 	groups := rng.Range(1, 4)
+	firstRun := 0
 	for g := 0; g < groups; g++ {
 		k := rng.Range(1, 12) // consecutive invalid messages; the receive retry budget is 5
+		if g == 0 {
+			firstRun = k
+		}
 		gap := int64(0)
 		if rng.Bool(0.5) {
 			gap = int64(rng.Dur(0, 300*time.Millisecond))
@@ -108,6 +112,17 @@ func c09Gen(rng *verifsim.RNG, idx int, tier string) *Plan {
 	if rng.Bool(0.2) {
 		p.Class = "runs+timeouts"
 		p.Faults = append(p.Faults, Fault{Seam: "read", Err: "timeout", N: rng.Range(2, 10), Count: rng.Range(1, 3)})
+	}
+	if p.Class == "runs" && rng.Bool(0.25) {
+		// A recoverable receive error (the link went away under the socket)
+		// among the invalid messages: the connection is re-established and the
+		// valid messages that follow are served.
+		p.Class = "runs+read-fault"
+		n := firstRun + 1 // the read right after the first run of invalid messages
+		if rng.Bool(0.4) {
+			n = rng.Range(1, len(p.Actions)+1)
+		}
+		p.Faults = append(p.Faults, Fault{Seam: "read", Err: []string{"ENETDOWN", "ENOBUFS"}[rng.Intn(2)], N: n})
 	}
 	maybeReinit(rng, p, "eth0", 50*nsMs, t, 0.2)
 	p.Horizon = t + 3*nsSec
@@ -252,7 +267,7 @@ func c09Oracle(info *runInfo, res *verifsim.Result) {
 				res.Violate("C09.alive", "stopped", "%s: task ended at %s before any stop was requested: %s", ifn, ms(e.T), e.Err)
 			}
 		}
-		if len(h.gens) > 1 && !strings.Contains(info.plan.Class, "+reinit") {
+		if len(h.gens) > 1 && !strings.Contains(info.plan.Class, "+reinit") && !strings.Contains(info.plan.Class, "+read-fault") {
 			res.Violate("C09.alive", "redialled", "%s: the connection was re-established %d times although nothing but (in)valid messages arrived", ifn, len(h.gens)-1)
 		}
 		// every action delivered must have been read by the stop: a packet left in
